@@ -4,6 +4,7 @@
 # reviewed by hand (DESIGN.md section 12).
 # usage: selftest/matrix.sh <outfile> [patch ...]
 set -u
+mkdir -p /root/scratch
 OUT="$1"; shift
 export GOFLAGS=-mod=mod GOPROXY=off GOSUMDB=off GOTOOLCHAIN=local
 PATCHES=("$@"); [ ${#PATCHES[@]} -eq 0 ] && PATCHES=(/verif/seeded/*/patch.diff /verif/selftest/mutants/*.diff)
